@@ -45,14 +45,17 @@ type measure struct {
 }
 
 // the functions whose exact call counts are reported (file, receiver-less name)
-var namedFuncs = []struct{ pkg, file, name string }{
-	{"validator", "validate_fields.go", "validateFieldsInSetCanMerge"},
-	{"validator", "validate_fields.go", "validateSameResponseShape"},
-	{"validator", "validate_fields.go", "addFieldSelections"},
-	{"validator", "validate_fields.go", "addFieldSelectionsWithCycleDetection"},
-	{"parser", "parser.go", "enter"},
-	{"parser", "parser.go", "exit"},
-	{"parser", "parser.go", "consumeToken"},
+var namedFuncs = []struct{ pkg, file, name, as string }{
+	{"validator", "validate_fields.go", "validateFieldsInSetCanMerge", ""},
+	{"validator", "validate_fields.go", "validateSameResponseShape", ""},
+	{"validator", "validate_fields.go", "addFieldSelections", ""},
+	{"validator", "validate_fields.go", "addFieldSelectionsWithCycleDetection", ""},
+	{"parser", "parser.go", "enter", ""},
+	{"parser", "parser.go", "exit", ""},
+	{"parser", "parser.go", "consumeToken", ""},
+	{"scanner", "scanner.go", "consumeRune", "scan.consumeRune"},
+	{"scanner", "scanner.go", "peek", "scan.peek"},
+	{"scanner", "scanner.go", "readNextRune", "scan.readNextRune"},
 }
 
 func componentOf(pkg, file string) int8 {
@@ -131,7 +134,11 @@ func newMeasure(repo string) (*measure, error) {
 				}
 				for k, u := range f.Units {
 					if int(u.StLine) == pos.Line && int(u.StCol) == pos.Column {
-						m.named[nf.name] = f.Base() + k
+						key := nf.as
+						if key == "" {
+							key = nf.name
+						}
+						m.named[key] = f.Base() + k
 						found = true
 					}
 				}
